@@ -204,18 +204,22 @@ def run(ctx, chk):
 
     R5 = chk.rule("S4-LITERALS", "OpConstant literals: 32-bit patterns as i32 (signed int), u32 (unsigned int) or f32; 64-bit patterns as "
                   "i64, u64 or f64, selected by the tracked result type; unknown type -> generic rendering")
-    V = ("sym", "value")
-    for ty, signed_cast, fl in (("u32", "i32", "f32"), ("u64", "i64", "f64")):
-        WL = raw.where("disas_literal_bit", ty, "disassemble.rs")
-        for name, lt, want in (("signed integer", ("enum", "Type::Integer", [("sym", "W"), True]), [(("as", V, signed_cast), "")]),
-                               ("unsigned integer", ("enum", "Type::Integer", [("sym", "W"), False]), [(V, "")]),
-                               ("float", ("enum", "Type::Float", [("sym", "W")]), [(("from_bits", fl, V), "")])):
-            inst = "DisassembleLiteralBit for %s (%s)" % (ty, name)
+    V = ("sym", "V0")
+    WC_ = raw.where("disas_constant", None, "disassemble.rs")
+    for ty, signed_cast, fl, variant in (("u32", "i32", "f32", "LiteralBit32"), ("u64", "i64", "f64", "LiteralBit64")):
+        operand_ = ("enum", "Operand::" + variant, [V])
+        for name, lt, lit_piece in (("signed integer", ("enum", "Type::Integer", [("sym", "W"), True]), ("as", V, signed_cast)),
+                                    ("unsigned integer", ("enum", "Type::Integer", [("sym", "W"), False]), V),
+                                    ("float", ("enum", "Type::Float", [("sym", "W")]), ("from_bits", fl, V))):
+            inst = "OpConstant with a %s bit pattern of a %s type" % (ty, name)
             try:
-                got = disx.literal_bit(ctx, ty, lt)
-                chk.check(R5, got == want, inst, "renders %s, expected %s in decimal" % (got, want), WL, key="C07:litbit:%s:%s" % (ty, name), sample=str(got))
+                r = disx.constant(ctx, True, lt, operand_)
+                got = disx.pieces(r) if not (isinstance(r, tuple) and r and r[0] == "panic") else r
+                want = disx.expected_line(True, True, [operand_], rendered=[lit_piece])
+                chk.check(R5, got == want, inst, "renders %s, expected %s (the literal in decimal)" % (str(got)[:240], want), WC_, key="C07:litbit:%s:%s" % (ty, name),
+                          sample=str(got))
             except Anchor as ex:
-                chk.bad(R5, inst, "not analysable: %s" % ex, WL, key="C07:litbit-shape")
+                chk.bad(R5, inst, "not analysable: %s" % ex, WC_, key="C07:litbit-shape")
     WC_ = raw.where("disas_constant", None, "disassemble.rs")
     L32 = ("enum", "Operand::LiteralBit32", [("sym", "V0")])
     L64 = ("enum", "Operand::LiteralBit64", [("sym", "V0")])
@@ -228,7 +232,7 @@ def run(ctx, chk):
             chk.bad(R5, "disas_constant(%s)" % name, "not analysable: %s" % ex, WC_, key="C07:disas_constant-shape")
             continue
         got = disx.pieces(r) if not (isinstance(r, tuple) and r and r[0] == "panic") else r
-        want = disx.expected_line(True, rtype, [operand], rendered=[("litbit", ("sym", "V0"), ("sym", "TYPE"))]) if typed else [("generic",)]
+        want = disx.expected_line(True, rtype, [operand], rendered=[("sym", "V0")]) if typed else [("generic",)]
         chk.check(R5, got == want, "disas_constant(%s)" % name, "renders %s, expected %s" % (str(got)[:240], want), WC_, key="C07:disas_constant:%s" % name)
     try:
         tw = [p_ for p_ in walkx.module_disassemble(ctx, True) if isinstance(p_, tuple) and p_[1] == "typed-constant"]
